@@ -13,6 +13,10 @@ CHECKS = {
          'Static structural analysis: a slot is appended only past a count-reached test for each kind it picks, picking stops at the requested number, short lists only when partial, remaining-count/collected-list updated and reset together, complete-placement return, search arguments and slot fields derive from the matching request attributes, ranks_per_node bounds the per-node search, colocate membership guard. Necessary conditions on every path of the anchored functions; not the correctness of the chosen indices.',
          'Scope Continuous/ContinuousJsrun. Not decided: numeric adequacy, index choice for every occupancy. R02.3 asserts are information only.',
          'DESIGN.md section 5 / C02'),
+ 'C03': ('symmetric-update, ownership and pairing rules (mirror of every debit, grant key = release key, counter writers, release-loop coverage)',
+         'Static structural analysis: every debit in _change_slot_states / Node.allocate_slot has a mirrored credit under the mirrored condition; unschedule_task frees exactly task[slots] with FREE; _active_cnt is written only by grant (+1 on every granting path, also for pre-placed tasks) and release (-1 once per queued task, every queued task released); the unschedule message reaches and is kept by the scheduler loop; roll-back of partial application-level searches. Decides these necessary conditions on all paths of the anchors, not the run-time history.',
+         'Trusted: zmq pubsub delivers each unschedule message once. Not decided: NUMA-domain lfs path (alias reasoning over run-time objects), thread interleavings.',
+         'DESIGN.md section 5 / C03'),
 }
 PENDING = 'check not built yet in this round (static rules designed in DESIGN.md section 5); not claimed until the checker exists'
 NA = {}
